@@ -540,8 +540,16 @@ func (fc *FuncCtx) execAssign(st *State, x *ast.AssignStmt) {
 		}
 		vals = v.Tuple
 	} else {
-		for _, r := range x.Rhs {
+		for i, r := range x.Rhs {
+			saved := fc.appendTarget
+			fc.appendTarget = nil
+			if len(x.Rhs) == len(x.Lhs) {
+				if id, ok := ast.Unparen(x.Lhs[i]).(*ast.Ident); ok {
+					fc.appendTarget = fc.info.ObjectOf(id)
+				}
+			}
 			vals = append(vals, fc.evalExpr(st, r))
+			fc.appendTarget = saved
 		}
 	}
 	for i, lhs := range x.Lhs {
